@@ -51,18 +51,20 @@ MUTANTS = {
     "C07-are-prefix": (["C07"], [("src/area.rs", '#[unit(Are, "a", HECTO, 100, "100·m²")]', '#[unit(Are, "a", DECA, 100, "100·m²")]')], "Are reports prefix DECA"),
     "C08-one-times-amount": (["C08"], [("src/lib.rs", "    fn mul(self, rhs: AmountT) -> Self::Output {\n        rhs\n    }", "    fn mul(self, rhs: AmountT) -> Self::Output {\n        if rhs == AMNT_ZERO {\n            return AMNT_ZERO;\n        }\n        rhs\n    }")],
                              "ONE * amount normalises negative zero to zero"),
-    "CONTROL-scalar-mul-commuted": ([], [(H, "                Self::Output::new(self * rhs.amount(), rhs.unit())", "                Self::Output::new(rhs.amount() * self * AMNT_ONE, rhs.unit())")],
-                                         "CONTROL (equivalent rewrite, must NOT be reported by C08): k * q computes amount * k * 1"),
+    "CONTROL-scalar-mul-commuted": ([], [(H, "                Self::Output::new(self * rhs.amount(), rhs.unit())", "                Self::Output::new(rhs.amount() * self, rhs.unit())")],
+                                         "CONTROL (must NOT be reported by C08): k * q computes amount * k instead of k * amount - the statement speaks of the product of amount and number without fixing an operand order (under Decimal the two orders differ in digit count for 1.0 * 1)"),
     "C09-from-symbol-case-insensitive": (["C09"], [("src/lib.rs", "        Self::iter().find(|&unit| unit.symbol() == symbol)", "        Self::iter().find(|&unit| unit.symbol().eq_ignore_ascii_case(symbol))")],
                                          "Unit::from_symbol ignores ASCII case"),
     "C10-eq-or-instead-of-and": (["C10"], [("src/lib.rs", "        self.unit() == other.unit() && self.amount() == other.amount()", "        self.unit() == other.unit() || self.amount() == other.amount()")],
                                  "Quantity::eq (no reference unit): equal amounts in different units compare equal"),
     "C11-names-keep-underscores": (["C11", "C07"], [(H, "unit_ident.to_string().replace('_', \" \").as_str(),", "unit_ident.to_string().as_str(),")], "unit names keep their underscores"),
-    "C11-unstable-reversed-ties": (["C11", "C09"], [(H, "            x.partial_cmp(&y).unwrap()\n        });", "            x.partial_cmp(&y).unwrap().then(core::cmp::Ordering::Greater)\n        });")],
-                                   "equal-scale units are ordered in reverse declaration order"),
+    "C11-ties-in-reverse-declaration-order": (["C11", "C09"], [(H, "        qty_def.units.insert(0, ref_unit_def);\n        qty_def.units.sort_by(|a, b| {", "        qty_def.units.insert(0, ref_unit_def);\n        qty_def.units.reverse();\n        qty_def.units.sort_by(|a, b| {")],
+                                              "equal-scale units are ordered in reverse declaration order (and the reference unit last among scale-one units)"),
+    "CONTROL-sort-comparator-greater-on-ties": ([], [(H, "            x.partial_cmp(&y).unwrap()\n        });", "            x.partial_cmp(&y).unwrap().then(core::cmp::Ordering::Greater)\n        });")],
+                                                "CONTROL (equivalent: a stable sort never moves an element for a non-Less comparison; must NOT be reported by C09/C11)"),
     "C13-div-rate-multiple-one-shortcut": (["C13"], [(H, """                let amnt: AmountT =
                     (self / rhs.term_unit().as_qty()) / rhs.term_amount();
-                Self::Output::new(""", """                if rhs.per_unit_multiple() == AMNT_ONE {
+                Self::Output::new(""", """                if rhs.per_unit_multiple() == Amnt!(1) {
                     return Self::Output::new(self.amount() / rhs.term_amount(), rhs.per_unit());
                 }
                 let amnt: AmountT =
@@ -149,6 +151,7 @@ def main():
     index.update(HAND)
     index["CONTROL-scalar-mul-commuted"]["control_for"] = ["C08"]
     index["CONTROL-fit-fallback-rewritten"]["control_for"] = ["C04", "C05", "C18"]
+    index["CONTROL-sort-comparator-greater-on-ties"]["control_for"] = ["C09", "C11"]
     path = os.path.join(OUT, "index.json")
     old = {}
     if os.path.exists(path):
